@@ -103,14 +103,33 @@ def cell_desc(ast, sp, vi, v):
     return {'ast': ast, 'sp': list(sp), 'vi': vi, 'v': values.expr(v)}
 
 
+def _canon(ast):
+    """The expression with the members of every union sorted: Union[A, B] and Union[B, A] get the same key."""
+    if isinstance(ast, str):
+        return ast
+    kids = [_canon(c) if isinstance(c, (list, str)) else c for c in ast[1:]]
+    if ast[0] == 'union':
+        kids = sorted(kids, key=repr)
+    return [ast[0]] + kids
+
+
+def shard_of(ast, n):
+    """Shard of an expression.  Expressions that differ only in the ORDER of union members go to the same shard, i.e. the same
+    interpreter, one after the other: types like list[Union[int, float]] and list[Union[float, int]] compare (and hash) equal,
+    so whatever is memoised per type must be shown not to confuse them - which needs both in one process."""
+    import zlib
+    return zlib.crc32(repr(_canon(ast)).encode()) % n
+
+
 def run_shard(shard, tier, judge, per_type=None, value_fn=values_for, expr_fn=grammar.expressions):
     pane = core.import_pane()
     warnings.simplefilter('ignore')
     res = core.new_result()
     ctx = Ctx(tier, res, pane)
     exprs = expr_fn(tier)
-    for idx in range(shard['i'], len(exprs), shard['n']):
-        ast = exprs[idx]
+    for idx, ast in enumerate(exprs):
+        if shard_of(ast, shard['n']) != shard['i']:
+            continue
         vals = value_fn(ast, tier)
         for sp in spellings_for(ast):
             try:
